@@ -89,3 +89,43 @@ Lemma upd_head_fields : forall s g,
 Proof.
   intros s g. unfold upd_head. destruct (stack s) eqn:E; cbn; rewrite ?E; repeat split; reflexivity.
 Qed.
+
+(* the statements with the crash oracle: a successful run is the plain run; a failing one is a plain run of
+   a prefix (the failure is reported where a statement was executed, never in between) *)
+Lemma fail_at_inv : forall c r st x st', fail_at c r st = (x, st') -> x <> Unmodelled -> x = Err c /\ st' = st.
+Proof.
+  intros c r st x st' H Hx. unfold fail_at in H.
+  destruct (head_nested st && existsb (needs_load st) r); inversion H; subst; auto. congruence.
+Qed.
+Lemma exec_f_char : forall c l k st r st', exec_f k c l st = (r, st') -> r <> Unmodelled ->
+  (r = Ok -> foldM do_stmt l st = (Ok, st')) /\
+  (r <> Ok -> exists pre suf r0, l = pre ++ suf /\ foldM do_stmt pre st = (r0, st') /\ r0 <> Unmodelled).
+Proof.
+  intros c l. induction l as [|s l IH]; intros k st r st' H Hr.
+  - inversion H; subst. split; [reflexivity|congruence].
+  - cbn [exec_f] in H. destruct (do_stmt s st) as [[|c'|] s1] eqn:E1.
+    + assert (Rec : forall k', exec_f k' c l s1 = (r, st') ->
+                (r = Ok -> foldM do_stmt (s :: l) st = (Ok, st')) /\
+                (r <> Ok -> exists pre suf r0, s :: l = pre ++ suf /\ foldM do_stmt pre st = (r0, st') /\ r0 <> Unmodelled)).
+      { intros k' H'. destruct (IH k' s1 r st' H' Hr) as [A B]. split.
+        - intros E. cbn [foldM]. rewrite (bind_ok _ _ _ _ E1). auto.
+        - intros E. destruct (B E) as [pre [suf [r0 [P1 [P2 P3]]]]].
+          exists (s :: pre), suf, r0. split; [cbn; congruence|]. split; [|exact P3].
+          cbn [foldM]. rewrite (bind_ok _ _ _ _ E1). exact P2. }
+      assert (Fa : fail_at c l s1 = (r, st') ->
+                (r = Ok -> foldM do_stmt (s :: l) st = (Ok, st')) /\
+                (r <> Ok -> exists pre suf r0, s :: l = pre ++ suf /\ foldM do_stmt pre st = (r0, st') /\ r0 <> Unmodelled)).
+      { intros H'. destruct (fail_at_inv _ _ _ _ _ H' Hr) as [X1 X2]. subst. split; [discriminate|]. intros _.
+        exists [s], l, Ok. split; [reflexivity|]. split; [|discriminate].
+        cbn [foldM]. rewrite (bind_ok _ _ _ _ E1). reflexivity. }
+      destruct (emits s st); [|apply (Rec k H)].
+      destruct k as [[|k']|]; [apply (Fa H)|apply (Rec _ H)|apply (Rec _ H)].
+    + assert (Fa : forall c0, fail_at c0 l s1 = (r, st') ->
+                (r = Ok -> foldM do_stmt (s :: l) st = (Ok, st')) /\
+                (r <> Ok -> exists pre suf r0, s :: l = pre ++ suf /\ foldM do_stmt pre st = (r0, st') /\ r0 <> Unmodelled)).
+      { intros c0 H'. destruct (fail_at_inv _ _ _ _ _ H' Hr) as [X1 X2]. subst. split; [discriminate|]. intros _.
+        exists [s], l, (Err c'). split; [reflexivity|]. split; [|discriminate].
+        cbn [foldM]. rewrite (bind_fail _ _ _ _ _ E1); [reflexivity|discriminate]. }
+      destruct (emits s st && Z.eqb c' E_STALE && match k with Some O => true | _ => false end); eapply Fa; eauto.
+    + inversion H; subst. congruence.
+Qed.
